@@ -26,6 +26,7 @@ var generators = map[string]genFn{
 	"slowhb": genSlowHB,
 	"healthrace": genHealthRace,
 	"acklosttakeover": genAckLostTakeover,
+	"lease": genLease,
 }
 
 type scenOut struct {
